@@ -207,6 +207,13 @@ func main() {
 				open = append(open, x)
 			}
 			sort.Ints(open)
+			if site == "unknown" && len(fatal) > 0 {
+				// no repository frame in the dying goroutine: a fault of the harness itself, never a verdict
+				run.Drop("child died outside repository frames")
+				run.Inconclusive("a child process died with no repository frame on the failing stack: " + what)
+				run.Set("harness_fault", fatal)
+				return
+			}
 			run.Violate(last, "process-crashed", map[string]string{"what": what, "site": site},
 				map[string]interface{}{"exit": res.ExitCode, "signal": res.Signal, "last_started_scenario": last, "scenarios_running": open, "fatal": fatal})
 		}
